@@ -4,6 +4,7 @@ import (
 	"fmt"
 	"go/token"
 	"go/types"
+	"sort"
 	"strings"
 
 	"golang.org/x/tools/go/ssa"
@@ -16,6 +17,7 @@ func init() {
 		Decided: "C18.1 every key of the closeness comparators (AddrMaybeId.CloserThan, the K-nearest less function, NodeAddrPort.Compare) is one projection applied to the left element and to the right element, in that order; the three-way adaptors return -1 on less(l,r), +1 on less(r,l), else 0; int160 Cmp scans bytes from index 0 upward over the whole array and returns -1 on the first l<r, +1 on the first l>r; " +
 			"C18.2 key sequences: CloserThan = [ID unknown (known first), distance to target (only when both IDs are known), address, port]; K-nearest = [distance of the element's ID to the construction-time target, address tie-break]; " +
 			"C18.3 totality by coverage: on every path on which the earlier keys have not already decided, CloserThan applies the address and port keys, so two candidates compare equal only if ID presence, ID, address and port agree; the K-nearest order always applies its address tie-break; " +
+			"C18.6 nothing reachable from a closeness comparator draws randomness or reads the clock, and every maphash seed used inside one is a value captured from outside the comparison, so comparing the same pair twice gives the same answer; " +
 			"C18.4 Xor writes every byte i of the result as a[i]^b[i]; Distance passes its two operands to Xor; bucketIndex = 160 - BitLen(root xor id) behind the root-ID guard; randomIdInBucket copies bits [0,i) from the root and stores the negation of bit i.",
 		NotDecided: "the metric and order laws as statements about all values (antisymmetry/transitivity of the composed order, big.Int BitLen arithmetic, SetBit/GetBit masks), which follow from the decided shapes only together with the semantics of multiless, netip.Addr.Compare and math/big.",
 		Assume: []string{
@@ -27,6 +29,7 @@ func init() {
 			{ID: "C18.2", Doc: "key sequences", Floor: 6, Run: c18r2},
 			{ID: "C18.3", Doc: "totality by coverage", Floor: 4, Run: c18r3},
 			{ID: "C18.4", Doc: "Xor / Distance / bucketIndex / randomIdInBucket shapes", Floor: 6, Run: c18r4},
+			{ID: "C18.6", Doc: "comparators are deterministic functions of their operands: the tie-break hash is seeded from outside the comparison", Floor: 3, Run: c18r6},
 			{ID: "C18.5", Doc: "the K-nearest container trims only from the far end and only above K (shared with C02.4)", Floor: 6, Run: c02r4},
 		},
 	})
@@ -661,4 +664,82 @@ func (w *World) counterBelow(idx ssa.Value, bound *Term) bool {
 		return inc != nil && lssBound(inc)
 	}
 	return false
+}
+
+// c18r6: a comparator consulted many times by a sorted container must answer consistently: it may
+// not draw a fresh hash seed, random number or timestamp per comparison.
+func c18r6(w *World, rr *RuleRun) {
+	nondet := func(o *types.Func) bool {
+		if o == nil || o.Pkg() == nil {
+			return false
+		}
+		switch o.Pkg().Path() {
+		case "hash/maphash":
+			return o.Name() == "MakeSeed"
+		case "math/rand", "math/rand/v2", "crypto/rand":
+			return true
+		case "time":
+			return o.Name() == "Now" || o.Name() == "Since" || o.Name() == "Until"
+		}
+		return false
+	}
+	for _, ca := range w.closenessComparators() {
+		reach := w.CG.Reach([]*ssa.Function{ca.fn}, func(e *Edge) bool { return w.P.IsLib(e.Callee) })
+		var fns []*ssa.Function
+		seen := map[*ssa.Function]bool{}
+		for f := range reach {
+			for _, g := range append([]*ssa.Function{f}, allAnon(f)...) {
+				if !seen[g] {
+					seen[g] = true
+					fns = append(fns, g)
+				}
+			}
+		}
+		sort.Slice(fns, func(i, j int) bool { return fns[i].Pos() < fns[j].Pos() })
+		inCmp := func(f *ssa.Function) bool { return seen[f] }
+		var bad []string
+		nSeed := 0
+		eachInstr(fns, func(f *ssa.Function, ins ssa.Instruction) {
+			c := callInstrCommon(ins)
+			if c == nil {
+				return
+			}
+			o := calleeObj(c)
+			if nondet(o) {
+				bad = append(bad, o.Pkg().Name()+"."+o.Name()+" at "+w.P.InstrPos(ins))
+			}
+			if o != nil && o.Pkg() != nil && o.Pkg().Path() == "hash/maphash" && o.Name() == "SetSeed" && len(c.Args) == 2 {
+				nSeed++
+				// the seed value must originate outside the comparison: a captured variable or a global
+				v := c.Args[1]
+				for i := 0; i < 4; i++ {
+					if u, ok := v.(*ssa.UnOp); ok && u.Op == token.MUL {
+						v = u.X
+						continue
+					}
+					break
+				}
+				outside := false
+				switch x := v.(type) {
+				case *ssa.FreeVar:
+					// bound where the closure is made: that site must itself be outside the comparison
+					outside = x.Parent() == ca.fn || !inCmp(x.Parent().Parent())
+					if x.Parent() != ca.fn && inCmp(x.Parent().Parent()) {
+						// nested closure capturing from the comparator: follow one level
+						if b, ok := w.TS.fvBind[x]; ok {
+							if u, ok := b.(*ssa.UnOp); ok {
+								b = u.X
+							}
+							_, isFV := b.(*ssa.FreeVar)
+							outside = isFV
+						}
+					}
+				case *ssa.Global:
+					outside = true
+				}
+				rr.At(w, ins, ca.name+": the hash seed is a value captured from outside the comparison", outside, "seed "+trunc(w.TS.Of(c.Args[1]).String(), 100))
+			}
+		})
+		rr.Oblige(shortFuncName(ca.fn), ca.name+" reaches no source of randomness or time", w.P.Pos(ca.fn.Pos()), len(bad) == 0, fmt.Sprintf("%d functions; %s", len(fns), strings.Join(bad, ", ")))
+	}
 }
